@@ -29,6 +29,7 @@ import PercevalModel.Lemmas.C13Session
 import PercevalModel.Lemmas.C13Ext
 import PercevalModel.Lemmas.C13Kinds
 import PercevalModel.Lemmas.C13Proc
+import PercevalModel.Lemmas.C13W7
 import PercevalModel.Props.C02
 
 open Matrix
@@ -1569,6 +1570,236 @@ example :
 
 end Processor
 
+/-! ### 17. wave 7: hypotheses discharged, converses, necessity
+
+The exact-`ρ` hypothesis of `blocksOf_isUnitary` / `polarised_simulation_of_input` is (a) shown to be
+necessary and sufficient (`prep2_fixed_unitary_iff`, witness `rho_exact_necessary`), (b) discharged
+with `ρ = 1` for an exact orthogonality test over any ring (`blocksOf_isUnitary_exact`,
+`polarised_simulation_of_input_exact`), (c) discharged over `ℂ` by the exact `1/√·`
+(`exists_rho_complex_iff`, `polarised_simulation_complex_of_input`).  Converses of `double_isUnitary`,
+`prep_unitary`, `prep2_unitary`. -/
+
+section Wave7
+open PM.Fock
+
+/-- doubling reflects unitarity: `matrix_double(u)` is unitary **iff** `u` is -/
+theorem double_isUnitary_iff [CommRing R] [StarRing R] {m : ℕ} (A : Matrix (Fin m) (Fin m) R) :
+    IsUnitary (double A) ↔ IsUnitary A := by
+  refine ⟨fun h => ⟨double_injective ?_, double_injective ?_⟩, double_isUnitary⟩
+  · rw [double_mul, double_star, double_one]; exact h.1
+  · rw [double_mul, double_star, double_one]; exact h.2
+
+/-- the single-polarisation block is unitary **iff** the Jones vector is normalised -/
+theorem prep_unitary_iff [CommRing R] [StarRing R] (v : R × R) :
+    IsUnitary (blockOf v (compl v)) ↔ inner v v = 1 := by
+  refine ⟨fun h => ?_, prep_unitary v⟩
+  have := congrFun (congrFun h.2 0) 0
+  simpa [blockOf, compl, Matrix.mul_apply, Fin.sum_univ_two, conjTranspose_apply, inner] using this
+
+/-- the two-polarisation block *as given* (code before the repair, and the symbolic branch) is
+unitary **iff** the two vectors are orthonormal -/
+theorem prep2_unitary_iff [CommRing R] [StarRing R] (v1 v2 : R × R) :
+    IsUnitary (blockOf v1 v2) ↔ inner v1 v1 = 1 ∧ inner v2 v2 = 1 ∧ inner v1 v2 = 0 := by
+  refine ⟨fun h => ⟨?_, ?_, ?_⟩, fun h => prep2_unitary v1 v2 h.1 h.2.1 h.2.2⟩
+  · have := congrFun (congrFun h.2 0) 0
+    simpa [blockOf, Matrix.mul_apply, Fin.sum_univ_two, conjTranspose_apply, inner] using this
+  · have := congrFun (congrFun h.2 1) 1
+    simpa [blockOf, Matrix.mul_apply, Fin.sum_univ_two, conjTranspose_apply, inner] using this
+  · have := congrFun (congrFun h.2 0) 1
+    simpa [blockOf, Matrix.mul_apply, Fin.sum_univ_two, conjTranspose_apply, inner] using this
+
+/-- **the exact-`ρ` hypothesis is necessary and sufficient**: for a normalised first vector the
+repaired two-polarisation block is unitary **iff** `conj(ρ)·ρ·‖v2 − ⟨v1,v2⟩v1‖² = 1` (for the
+self-adjoint `ρ` of `prep2_fixed_unitary`: iff `ρ² ‖…‖² = 1`) -/
+theorem prep2_fixed_unitary_iff [CommRing R] [StarRing R] (ρ : R) (v1 v2 : R × R)
+    (h1 : inner v1 v1 = 1) :
+    IsUnitary (blockOf v1 (gs ρ v1 v2)) ↔ star ρ * ρ * gsNorm2 v1 v2 = 1 := by
+  have hn : inner (gs ρ v1 v2) (gs ρ v1 v2) = star ρ * ρ * gsNorm2 v1 v2 := by
+    simp only [gsNorm2, gs, inner, one_mul, star_mul', star_sub, star_add, star_star]
+    ring
+  have ho : inner v1 (gs ρ v1 v2) = 0 := by
+    simp only [gs, inner] at h1 ⊢
+    linear_combination (-(ρ * (star v1.1 * v2.1 + star v1.2 * v2.2))) * h1
+  rw [prep2_unitary_iff, hn]
+  exact ⟨fun h => h.2.1, fun h => ⟨h1, h, ho⟩⟩
+
+/-- necessity witness over `ℚ[i]`: with `ρ = 1` instead of the exact `5/4` the repaired block of
+`vEll`, `H` is not unitary -/
+theorem rho_exact_necessary : ¬ IsUnitary (modeBlock true (1 : GQ) [vEll, (1, 0)]) := by
+  unfold IsUnitary; decide +kernel
+
+
+/-- the scan of a mode keeps at most two vectors, distinct, and the second one passed the code's
+orthogonality test against the first -/
+theorem scanAll_vectors [DecidableEq R] (orth : R × R → R × R → Bool)
+    (modes : List (List (R × R))) (scans : List (Scan R)) (hscan : scanAll orth modes = .ok scans)
+    (sc : Scan R) (hsc : sc ∈ scans) :
+    sc.vectors.length ≤ 2 ∧
+      ∀ v1 v2 rest, sc.vectors = v1 :: v2 :: rest → orth v1 v2 = true ∧ v1 ≠ v2 ∧ rest = [] :=
+  scanAll_inv orth modes scans hscan sc hsc
+
+/-- closed form of the norm the Gram–Schmidt step divides by; hence for normalised vectors the
+exact-`ρ` hypothesis reads `ρ² (1 − |⟨v1,v2⟩|²) = 1` -/
+theorem gsNorm2_eq [CommRing R] [StarRing R] (v1 v2 : R × R) (h1 : inner v1 v1 = 1) :
+    gsNorm2 v1 v2 = inner v2 v2 - inner v1 v2 * star (inner v1 v2) := gsNorm2_closed v1 v2 h1
+
+/-- **the exact-`ρ` hypothesis discharged for an exact orthogonality test** (any ring): when the
+conversion accepts a second polarisation only if it is exactly orthogonal to the first (`orthExact`,
+the symbolic branch's test) and the photons are normalised, `ρ = 1` is an exact inverse norm, the
+repaired block is the block of the vectors as given, and every block is unitary. -/
+theorem blocksOf_isUnitary_exact [CommRing R] [StarRing R] [DecidableEq R]
+    (modes : List (List (R × R))) (scans : List (Scan R))
+    (hscan : scanAll orthExact modes = .ok scans)
+    (hnorm : ∀ phs ∈ modes, ∀ v ∈ phs, inner v v = 1) (ρ : List (R × R) → R) (m : ℕ) (k : Fin m) :
+    blocksOf true (fun _ => 1) scans m k = blocksOf false ρ scans m k ∧
+      IsUnitary (blocksOf true (fun _ => 1) scans m k) := by
+  have hspec := scanAll_spec orthExact modes scans hscan
+  have hinv := scanAll_inv orthExact modes scans hscan
+  have horth : ∀ sc ∈ scans, ∀ v1 v2 rest, sc.vectors = v1 :: v2 :: rest → inner v1 v2 = 0 := by
+    intro sc hsc v1 v2 rest hv
+    have := ((hinv sc hsc).2 v1 v2 rest hv).1
+    simpa [orthExact] using this
+  have hnv : ∀ sc ∈ scans, ∀ w ∈ sc.vectors, inner w w = 1 := by
+    intro sc hsc w hw
+    obtain ⟨phs, hphs, _, hv⟩ := forall₂_mem_right hspec _ hsc
+    exact hnorm phs hphs w (hv w hw)
+  constructor
+  · unfold blocksOf
+    rcases getD_mem_or_default (⟨[], 0, 0⟩ : Scan R) scans k.val with hmem | hdef
+    · generalize scans.getD k.val ⟨[], 0, 0⟩ = sc at hmem
+      match hvs : sc.vectors with
+      | [] => rfl
+      | [_] => rfl
+      | v1 :: v2 :: rest =>
+        simp only [modeBlock, if_true, Bool.false_eq_true, if_false]
+        rw [gs_one_of_orth v1 v2 (horth sc hmem v1 v2 rest hvs)]
+    · rw [hdef]; rfl
+  · refine blocksOf_isUnitary orthExact modes scans hscan hnorm (fun _ => 1) (fun _ => star_one _)
+      ?_ m k
+    intro sc hsc v1 v2 rest hv
+    rw [one_mul, one_mul]
+    exact gsNorm2_of_orthonormal v1 v2 (hnv sc hsc v2 (by rw [hv]; simp)) (horth sc hsc v1 v2 rest hv)
+
+/-- **Top-level theorem from the polarised input, without the exact-`ρ` hypothesis**, for an exact
+orthogonality test: accepted input + normalised photons ⇒ the polarised simulation is the merged
+spatial simulation of the unitary `upol · prep`, a probability distribution. -/
+theorem polarised_simulation_of_input_exact (c : PComp GQ) (h : c.WF) (hu : c.AllUnitary)
+    (modes : List (List (GQ × GQ))) (scans : List (Scan GQ))
+    (hm : modes.length = c.size) (hscan : scanAll orthExact modes = .ok scans)
+    (hnorm : ∀ phs ∈ modes, ∀ v ∈ phs, inner v v = 1) :
+    (spatialInput scans).length = c.size * 2 ∧
+    (spatialInput scans).sum = (modes.map List.length).sum ∧
+    IsUnitary (simMatrix (upolOf c) (prepMatrix (blocksOf true (fun _ => 1) scans c.size))) ∧
+    polDist (simMatrix (upolOf c) (prepMatrix (blocksOf true (fun _ => 1) scans c.size)))
+        (spatialInput scans) =
+      Dist.mapKeys mergeState
+        (spatialDist (upolOf c * prepMatrix (blocksOf true (fun _ => 1) scans c.size))
+          (spatialInput scans)) ∧
+    Dist.mass (polDist (simMatrix (upolOf c) (prepMatrix (blocksOf true (fun _ => 1) scans c.size)))
+      (spatialInput scans)) = 1 ∧
+    ((allStates c.size (modes.map List.length).sum).map
+      (Dist.get (polDist (simMatrix (upolOf c) (prepMatrix (blocksOf true (fun _ => 1) scans c.size)))
+        (spatialInput scans)))).sum = 1 := by
+  have hspec := scanAll_spec orthExact modes scans hscan
+  have hinv := scanAll_inv orthExact modes scans hscan
+  refine polarised_simulation_of_input c h hu orthExact modes scans hm hscan hnorm (fun _ => 1)
+    (fun _ => star_one _) ?_
+  intro sc hsc v1 v2 rest hv
+  have ho : inner v1 v2 = 0 := by
+    simpa [orthExact] using ((hinv sc hsc).2 v1 v2 rest hv).1
+  obtain ⟨phs, hphs, _, hvv⟩ := forall₂_mem_right hspec _ hsc
+  rw [one_mul, one_mul]
+  exact gsNorm2_of_orthonormal v1 v2 (hnorm phs hphs v2 (hvv v2 (by rw [hv]; simp))) ho
+
+/-- over `ℂ` an exact self-adjoint inverse norm exists **iff** the Gram–Schmidt vector is not zero
+(`rhoC` is `1/√‖v2 − ⟨v1,v2⟩v1‖²`) -/
+theorem exists_rho_complex_iff (v1 v2 : ℂ × ℂ) :
+    (∃ ρ : ℂ, star ρ = ρ ∧ ρ * ρ * gsNorm2 v1 v2 = 1) ↔ gsNorm2 v1 v2 ≠ 0 := by
+  constructor
+  · rintro ⟨ρ, _, h⟩ h0
+    rw [h0, mul_zero] at h
+    exact zero_ne_one h
+  · intro h
+    exact ⟨rhoC [v1, v2], rhoC_star _, rhoC_spec v1 v2 [] h⟩
+
+/-- **Top-level statement over `ℂ` from the polarised input, the exact-`ρ` hypothesis discharged**:
+`rhoC` (exact `1/√·`, which exists in `ℂ`) is used by the Gram–Schmidt step.  If the conversion
+accepts the input, the photons are normalised and the test `orth` never accepts a second
+polarisation equal to the first up to a phase (`|⟨v1,v2⟩|² ≠ 1`), then every preparation block is
+unitary, `upol · prep` is unitary and the merged probabilities over the `m`-mode states with as many
+photons as the input sum to one. -/
+theorem polarised_simulation_complex_of_input [DecidableEq ℂ] (c : PComp ℂ) (h : c.WF)
+    (hu : c.AllUnitary) (orth : ℂ × ℂ → ℂ × ℂ → Bool) (modes : List (List (ℂ × ℂ)))
+    (scans : List (Scan ℂ)) (hm : modes.length = c.size) (hscan : scanAll orth modes = .ok scans)
+    (hnorm : ∀ phs ∈ modes, ∀ v ∈ phs, inner v v = 1)
+    (horth : ∀ v1 v2, orth v1 v2 = true → inner v1 v2 * star (inner v1 v2) ≠ 1) :
+    (spatialInput scans).length = c.size * 2 ∧
+    (spatialInput scans).sum = (modes.map List.length).sum ∧
+    (∀ k, IsUnitary (blocksOf true rhoC scans c.size k)) ∧
+    IsUnitary (simMatrix (upolOf c) (prepMatrix (blocksOf true rhoC scans c.size))) ∧
+    ((allStates c.size (modes.map List.length).sum).map fun t =>
+      (((allStates (c.size * 2) (modes.map List.length).sum).filter
+          fun u => decide (mergeState u = t)).map fun u =>
+        pamp (simMatrix (upolOf c) (prepMatrix (blocksOf true rhoC scans c.size)))
+            (spatialInput scans) u *
+          star (pamp (simMatrix (upolOf c) (prepMatrix (blocksOf true rhoC scans c.size)))
+            (spatialInput scans) u) /
+            ((prodFact (spatialInput scans) : ℂ) * (prodFact u : ℂ))).sum).sum = 1 := by
+  have hspec := scanAll_spec orth modes scans hscan
+  have hinv := scanAll_inv orth modes scans hscan
+  have hlen : (spatialInput scans).length = c.size * 2 := by
+    rw [spatialInput_length, ← hspec.length_eq, hm]
+  have hsum : (spatialInput scans).sum = (modes.map List.length).sum := by
+    rw [spatialInput_sum]
+    exact forall₂_sum_eq List.length (fun sc : Scan ℂ => sc.n0 + sc.n1) _
+      (fun _ _ hp => hp.1) _ _ hspec
+  have hB : ∀ k, IsUnitary (blocksOf true rhoC scans c.size k) := by
+    refine blocksOf_isUnitary orth modes scans hscan hnorm rhoC rhoC_star ?_ c.size
+    intro sc hsc v1 v2 rest hv
+    rw [hv]
+    apply rhoC_spec
+    obtain ⟨phs, hphs, _, hvv⟩ := forall₂_mem_right hspec _ hsc
+    have h1 : inner v1 v1 = 1 := hnorm phs hphs v1 (hvv v1 (by rw [hv]; simp))
+    have h2 : inner v2 v2 = 1 := hnorm phs hphs v2 (hvv v2 (by rw [hv]; simp))
+    rw [gsNorm2_closed v1 v2 h1, h2]
+    intro h0
+    exact horth v1 v2 ((hinv sc hsc).2 v1 v2 rest hv).1 (by linear_combination -h0)
+  obtain ⟨hW, hmass⟩ := polarised_simulation_mass_field c h hu _ hB (spatialInput scans) hlen
+  rw [hsum] at hmass
+  exact ⟨hlen, hsum, hB, hW, hmass⟩
+
+/-- non-vacuity of `polarised_simulation_of_input_exact` / `blocksOf_isUnitary_exact`: the input
+`|{P:H}{P:V}, 0, {P:ell}>` is accepted by the exact test -/
+example : [[((1 : GQ), (0 : GQ)), (0, 1)], [], [vEll]].length = exTree.size ∧
+    scanAll orthExact [[((1 : GQ), (0 : GQ)), (0, 1)], [], [vEll]] =
+      .ok [⟨[(1, 0), (0, 1)], 1, 1⟩, ⟨[], 0, 0⟩, ⟨[vEll], 1, 0⟩] ∧
+    (∀ phs ∈ [[((1 : GQ), (0 : GQ)), (0, 1)], [], [vEll]], ∀ v ∈ phs, inner v v = 1) := by
+  refine ⟨rfl, by decide +kernel, by decide +kernel⟩
+
+/-- non-vacuity of `polarised_simulation_complex_of_input`: a test that accepts every second
+polarisation not equal to the first up to a phase, and the non-orthogonal pair `H`, `(3/5, 4/5)` -/
+example [DecidableEq ℂ] :
+    let orth : ℂ × ℂ → ℂ × ℂ → Bool :=
+      fun v1 v2 => @decide (inner v1 v2 * star (inner v1 v2) ≠ 1) (Classical.dec _)
+    (∀ v1 v2, orth v1 v2 = true → inner v1 v2 * star (inner v1 v2) ≠ 1) ∧
+    scanAll orth [[((1 : ℂ), (0 : ℂ)), (3 / 5, 4 / 5)]] = .ok [⟨[(1, 0), (3 / 5, 4 / 5)], 1, 1⟩] ∧
+    (∀ phs ∈ [[((1 : ℂ), (0 : ℂ)), (3 / 5, 4 / 5)]], ∀ v ∈ phs, inner v v = 1) := by
+  intro orth
+  have ho : orth (1, 0) (3 / 5, 4 / 5) = true := by
+    simp only [orth, inner]
+    norm_num
+  have hne : ((1 : ℂ), (0 : ℂ)) ≠ (3 / 5, 4 / 5) := by
+    intro h; have := congrArg Prod.snd h; norm_num at this
+  refine ⟨fun v1 v2 h => by simpa [orth] using h, ?_, ?_⟩
+  · simp [scanAll, scanMode, scanStep, ho, hne]
+  · intro phs hp v hv
+    simp only [List.mem_singleton] at hp
+    subst hp
+    simp only [List.mem_cons, List.not_mem_nil, or_false] at hv
+    rcases hv with rfl | rfl <;> simp only [inner] <;> norm_num
+
+end Wave7
+
 /-!
 ### What is proved here and what is not
 
@@ -1596,8 +1827,14 @@ NOT proved (validated by the correspondence only, or outside the model):
   (there through `MatV` materialisation and `matOfRows` re-typing); the driver's glue itself is not
   the subject of a theorem.
 * The exact-`ρ` hypothesis: over `ℚ[i]` the driver uses one Newton step for `1/√x`, so the matrix
-  it simulates is unitary only up to `10⁻²⁴`; the mass-one theorem is exact for exact `ρ` (always
-  available over `ℂ`, `polarised_simulation_mass_field`).
+  it simulates is unitary only up to `10⁻²⁴`; the mass-one theorem is exact for exact `ρ`.  Section 17
+  now PROVES that the hypothesis is necessary and sufficient (`prep2_fixed_unitary_iff`), that it holds
+  with `ρ = 1` whenever the orthogonality test is exact (`polarised_simulation_of_input_exact`, any
+  ring, in particular `ℚ[i]`) and that over `ℂ` the exact `ρ` exists iff the second polarisation is not
+  the first up to a phase (`exists_rho_complex_iff`, `polarised_simulation_complex_of_input`).  Still
+  not proved: a bound on the defect of unitarity / of the total mass for the driver's *approximate*
+  `ρ` over `ℚ[i]` (perturbation estimate on permanents), and that no exact `ρ` exists in `ℚ[i]` for
+  e.g. `‖…‖² = 1/2` (irrationality of `√2`; not needed by any theorem).
 * `evolve`: the square root `√(∏s!∏t!)` (and `√(retained mass)` with a selection) is taken outside
   the model; `keep_heralds(False)` on the state-vector path is NOT modelled (native
   `BasicState.remove_modes` on annotated states, coherent addition of amplitudes that differ only in
